@@ -52,6 +52,19 @@ def verdictRefuse (obs : String) : String :=
       else "fail:half-evaluated:the HCL file has a local or an expression that does not evaluate, yet the file is accepted"
     | none => "fail:driver:unreadable observation"
 
+/-- the observation of an HCL file with a `locals` block the format does not admit — a label after the keyword
+(`locals "prod" { … }`): hcl takes the block out of the body, reports an error for it and hands it to nobody, so its
+definitions would silently vanish.  "Locals blocks are fully evaluated before conversion": the file must be refused -/
+def verdictSchema (obs : String) : String :=
+  if "PANIC".toList.isPrefixOf obs.toList then "fail:panic:" ++ obs
+  else if "HANG".toList.isPrefixOf obs.toList then "fail:hang:" ++ obs
+  else
+    match token obs "H" with
+    | some h =>
+      if h == "ERR" then "ok"
+      else "fail:dropped-locals:the HCL file has a `locals` block with a label; hcl reports an error for it and drops it, yet the file is accepted and the block's definitions are silently ignored"
+    | none => "fail:driver:unreadable observation"
+
 /-- one documented field: HCL struct, name in HCL, how it is written, may be left out, key in YAML -/
 structure DocField where
   struct : String
